@@ -15,7 +15,7 @@ import itertools
 import json
 import sys
 
-from .refpeg import ref_parse, tree_of
+from .refpeg import ref_parse, tagged_tree_of, tree_of
 
 MODES = ("interp", "interp+opt", "gen", "gen+opt")
 
@@ -37,8 +37,12 @@ FAMILIES: dict[str, dict] = {
     "predicate": {"grammars": ['a = { &"x" ~ ANY ~ !"y" ~ ANY? }', 'b = { "x" }\na = { !(b ~ "y") ~ b }', 'b = { "x" }\na = { &(b ~ "y") ~ b ~ ANY }', 'a = { (!"y" ~ ANY)* ~ "y" }'], "alphabet": "xy", "n": 4},
     "rule": {"grammars": [WSP + 'b = _{ "x" ~ "y" }\na = { b ~ "x" }', WSP + 'b = ${ "x" ~ "y" }\na = { b ~ "x" }', WSP + 'b = @{ "x" ~ "y" }\na = { b ~ "x" }', WSP + 'c = !{ "x" ~ "y" }\nb = @{ c ~ "x" }\na = { b ~ "y" }', WSP + 'c = { "y" }\nb = ${ "x" ~ c }\na = { b ~ "x" }', WSV + 'a = ${ "x" ~ "y" }'], "alphabet": "xy ", "n": 5},
     "trivia": {"grammars": [WSP + CMT + 'a = { "x" ~ "y" }', 'WHITESPACE = _{ "-" ~ ">" }\na = { "x" ~ "-" ~ "y" }', 'COMMENT = { "#" }\na = { "x" ~ "y" }', WSV + 'COMMENT = { "#" }\na = { "x"* ~ "y" }', WSP + 'COMMENT = _{ "#" ~ (!"!" ~ ANY)* ~ "!" }\na = { "x" ~ "#" ~ "y" }'], "alphabet": "xy #!->", "n": 4},
-    "push": {"grammars": ['a = { PUSH("x" | "y") ~ POP }', 'a = { PUSH("x") ~ PUSH("y") ~ PEEK_ALL }', 'a = { PUSH("x") ~ PUSH("y") ~ POP_ALL ~ DROP? }', 'a = { PUSH("x") ~ PUSH("y") ~ PEEK[0..1] ~ PEEK[..] ~ PEEK[-1..] }', 'a = { PUSH_LITERAL("y") ~ PEEK ~ DROP ~ "x"? ~ DROP? }', 'a = { PEEK | "x" }', 'a = { POP | "x" }', 'a = { POP_ALL ~ "x" }', 'a = { PEEK[..] ~ "x" }', 'a = { PEEK_ALL ~ "x" }'], "alphabet": "xy", "n": 5},
+    "push": {"grammars": ['a = { PUSH("x" | "y") ~ POP }', 'a = { PUSH("x") ~ PUSH("y") ~ PEEK_ALL }', 'a = { PUSH("x") ~ PUSH("y") ~ POP_ALL ~ DROP? }', 'a = { PUSH("x") ~ PUSH("y") ~ PEEK[0..1] ~ PEEK[..] ~ PEEK[-1..] }', 'a = { PUSH_LITERAL("y") ~ PEEK ~ DROP ~ "x"? ~ DROP? }', 'a = { PEEK | "x" }', 'a = { POP | "x" }', 'a = { POP_ALL ~ "x" }', 'a = { PEEK[..] ~ "x" }', 'a = { PEEK_ALL ~ "x" }', 'a = { PUSH("x"*) ~ "y" ~ PEEK ~ "y" }', 'a = { PUSH("") ~ POP ~ "x" }', 'a = { PUSH("x"?) ~ !PEEK ~ "y" | "x" ~ "y" }', 'a = { PUSH("x"*) ~ "y" ~ PEEK_ALL ~ PEEK[..] ~ POP_ALL }'], "alphabet": "xy", "n": 5},
     "stack_backtrack": {"grammars": ['a = { PUSH("x") ~ ((POP)? ~ "z" | PEEK) }', 'a = { PUSH("x") ~ PUSH("y") ~ (POP ~ POP ~ "z" | PEEK) }', 'a = { PUSH("x") ~ (POP_ALL ~ "z" | PEEK ~ "y") }', 'a = { PUSH("x") ~ !(POP ~ "z") ~ &(DROP) ~ PEEK }', 'a = { PUSH("x") ~ (PUSH("y") ~ "z")* ~ PEEK_ALL }', 'a = { PUSH("x") ~ (DROP ~ "z")? ~ (PUSH("y") ~ "z" | PEEK_ALL) }'], "alphabet": "xyz", "n": 5},
+    "optimizer_skip": {"grammars": ['r = @{ (!("b" | "ab") ~ ANY)* }\na = { r ~ ANY* }', 'nl = _{ "\\n" | "\\r\\n" }\nr = @{ (!nl ~ ANY)* }\na = { r ~ nl? ~ r }', 'WHITESPACE = _{ " " }\na = { (!"b" ~ ANY)* ~ "b"? }', 'a = { (!("x" ~ "y") ~ ANY)* ~ ANY* }', 'WHITESPACE = _{ " " }\nr = @{ (!"b" ~ ANY)* }\na = { r ~ "b" }'], "alphabet": "ab \n\rxy", "n": 4},
+    "optimizer_squash": {"grammars": ['a = { ("x" | "xy") ~ "y"? ~ "z" }', 'a = { (^"xy" | "xyz") ~ "z"? }', 'a = { ("xy" | "x" | \'y\'..\'z\') ~ "z" }', 'b = _{ "x" | "xy" }\na = { b ~ "y" }', 'a = { (ASCII_DIGIT | "x" | "xy")+ }'], "alphabet": "xyzXY1", "n": 4},
+    "optimizer_inline": {"grammars": ['c = { "x" }\ns = _{ c ~ "y" }\na = { #tt=s ~ s? }', 'c = { "x" }\na = { #tt=(c)+ }', 's = _{ "x" ~ s? ~ "y" }\na = { s }', 'WHITESPACE = _{ " " }\ns = _{ "x" ~ "y" }\na = @{ s ~ s }'], "alphabet": "xy ", "n": 5},
+    "comment_only": {"grammars": ['COMMENT = _{ "#" ~ (!"!" ~ ANY)* ~ "!" }\na = { "x" ~ "y" }', 'COMMENT = _{ "#" ~ (!"!" ~ ANY)* ~ "!" }\nb = { "x" }\na = { b* ~ "y" }'], "alphabet": "xy#!", "n": 6},
     "atomic_visibility": {"grammars": ['d = { "y" }\nb = ${ d }\na = @{ "x" ~ b }', 'd = { "y" }\na = @{ "x" ~ d }'], "alphabet": "xy", "n": 2},
 }
 
@@ -53,6 +57,9 @@ CLASS_FAMILY = {
     "Push": ["push", "stack_backtrack"], "PushLiteral": ["push"], "Peek": ["push", "stack_backtrack"], "Pop": ["push", "stack_backtrack"],
     "PeekAll": ["push", "stack_backtrack"], "PopAll": ["push", "stack_backtrack"], "PeekSlice": ["push"], "Drop": ["push", "stack_backtrack"],
     "Stack": ["stack_backtrack"], "generate": ["trivia", "sequence", "repeat"],
+    "SkipUntil": ["optimizer_skip"], "skip": ["optimizer_skip"], "OptimizedChoice": ["optimizer_squash"], "squash_choice": ["optimizer_squash"],
+    "inline": ["optimizer_inline"], "unroll": ["repeat_exact", "repeat_min", "repeat_max", "repeat_minmax", "repeat_once", "optimizer_inline"],
+    "skip_rule": ["comment_only", "trivia"], "RegexExpression": ["optimizer_squash"],
 }
 
 _cache: dict[tuple[str, bool], tuple] = {}
@@ -84,7 +91,8 @@ def run_modes(grammar: str, rule: str, text: str, start_pos: int = 0) -> dict[st
         for nm, f in (("interp", p.parse), ("gen", gparse)):
             key = nm + ("+opt" if opt else "")
             try:
-                out[key] = ("ok", tree_of(f(rule, text, start_pos=start_pos)))
+                prs = f(rule, text, start_pos=start_pos)
+                out[key] = ("ok", tree_of(prs), tagged_tree_of(prs))
             except PestParsingError as e:
                 out[key] = ("fail", e.state.furthest_pos)
             except RecursionError:
@@ -119,6 +127,11 @@ def check_case(grammar: str, rule: str, text: str, start_pos: int = 0, modes=MOD
         elif g[0] == "fail":
             fars.add(g[1])
     if not bad:
+        # tags: every mode must attach the same tags (the Spec interpreter does not model tags)
+        tagged = {m: got[m][2] for m in modes if got[m][0] == "ok"}
+        if len({json.dumps(v) for v in tagged.values()}) > 1:
+            return {"kind": "node tags differ between modes", "modes": {m: ("ok", v) for m, v in tagged.items()}, "spec": ref}
+    if not bad:
         # C01: interpreter and generated code of the SAME Parser must report the same furthest position
         for a, b in (("interp", "gen"), ("interp+opt", "gen+opt")):
             if a in modes and b in modes and got[a][0] == "fail" and got[b][0] == "fail" and got[a][1] != got[b][1]:
@@ -138,12 +151,13 @@ def search(families: list[str], modes=MODES, limit: int = 1, skip=()):
     """skip: iterable of (grammar, text) pairs that are listed known findings."""
     found = []
     skip = set(skip)
+    skip_grammars = {g for g, _ in skip}
     for fam in families:
         spec = FAMILIES[fam]
         for g in spec["grammars"]:
+            if g in skip_grammars:
+                continue  # a listed known finding: every input of this grammar is attributed to it
             for text in inputs(spec["alphabet"], spec["n"]):
-                if (g, text) in skip:
-                    continue
                 r = check_case(g, "a", text, 0, modes)
                 if r:
                     found.append({"family": fam, "grammar": g, "rule": "a", "text": text, **r})
@@ -155,7 +169,7 @@ def search(families: list[str], modes=MODES, limit: int = 1, skip=()):
 
 def families_for(label: str) -> list[str]:
     """fn label like pest.grammar.expressions.postfix.Repeat.parse -> families to search."""
-    parts = label.replace("[", ".").split(".")
+    parts = label.replace("[", ".").replace(":", ".").replace("(", ".").split(".")
     fams: list[str] = []
     for p in parts:
         for f in CLASS_FAMILY.get(p, []):
